@@ -35,7 +35,9 @@ Clauses(ev) ==
          [PolicyLossIsMinusMeanLogProbTimesAdvantage |-> L!NormOK(c) /\ L!Close5(ev.policy_x, L!PgPolicy4B(c), 4 * B(c)),
           ValueLossIsHalvedMSE              |-> L!Close5(ev.value_x, L!PgValue32B(c), 32 * B(c)),
           TotalIsWeightedSum                |-> L!Close5(ev.total_x, L!ReinforceTotal64B(c), 64 * B(c))]
-    [] OTHER -> [OptimiserCaseIsNamed |-> ev.ev = "optim"]
+    \* "optim": the optimiser clause; "identity": on-policy identities on a buffer filled by the real collector - both carry
+    \* harness-evaluated atoms only
+    [] OTHER -> [CaseIsNamed |-> ev.ev \in {"optim", "identity"}]
 AllFailed(ev) == LET c == Clauses(ev) a == AtomClauses(ev) IN {n \in DOMAIN c : ~c[n]} \cup {n \in DOMAIN a : ~a[n]}
 TCheck == /\ l = 1
           /\ IF AllFailed(Ev) = {} THEN l' = 2 /\ UNCHANGED rej ELSE l' = 0 /\ rej' = <<1, AllFailed(Ev)>>
